@@ -76,7 +76,10 @@ CLAIM = {
         "(fixes/C03-omit-default-compare.patch); with ExtraKwargs and nested layouts the known branch keys reach "
         "**kwargs (known finding, negation proved as extra_kwargs_only_unknown_fails, flat case proved). Not proved: "
         "well-formedness of built output crowns (distinct keys) is a hypothesis of the dumper theorems and is checked "
-        "by the correspondence; name style conversion is an abstract function; predicates are truth tables (C10); "
+        "by the correspondence; in Props/C03.lean the name style conversion is an abstract function of the field name, the "
+        "conversion itself (convert_snake_style, 16 styles, ASCII names) is modelled in Layout/NameStyle.lean with "
+        "Props/C03NameStyle.lean (a style changes only case and separator; distinct lower-case names keep distinct keys "
+        "under separator styles) and the exhaustive name-style correspondence; predicates are truth tables (C10); "
         "constructor-call planning is C08."
     ),
     "design_ref": "DESIGN.md §4 C03",
